@@ -915,7 +915,7 @@ static int resolve(sim_inst *I, const plan_op *po, sim_xop *x, int in_action)
 	case SOP_SCAN_BYTES:
 	case SOP_SCAN_STRING:
 	case SOP_SCAN_BUFFER:
-		return 1;
+		return !vt->no_mem_buffers;
 	case SOP_RESTART:
 		/* pointing an in-memory (yy_scan_*) buffer at a stream is not a
 		 * documented use of yyrestart / yyin */
